@@ -122,6 +122,12 @@ def check(ctx: Ctx) -> str:
     from .c07 import undeclared_visitor_rule
 
     undeclared_visitor_rule(ctx, "R6")
+    # a scoped block renders in a context derived from the live one: new_context works on a
+    # copy of a shared parent, so the enclosing loop's variables never reach the blocks
+    # rendered after it (rule owned by C29)
+    from . import c29
+
+    ctx.run_imported("C29", {"R2"}, c29.check)
     return __doc__ or ""
 
 
